@@ -26,9 +26,13 @@ Go ↔ model
   the ObjectSetPhase object is created from the (loaded) phase — `SetPhase` copies `phase.Objects` — resp. deleted;
   what the controller finds of that object is the scenario input `RState`.
 
-Not modelled: API errors other than AlreadyExists on slice creation / NotFound on slice load, update conflicts
-on the ObjectDeployment (retried by the code), owner references other than "is the ObjectDeployment the
-controller" and "does the loading ObjectSet own the slice".
+    `Reconcile` hit by one API fault (`DFault`: Get / Create / Update of the ObjectDeployment failing with a
+    non-conflict error, an Update that took effect although an error came back, a 409 Conflict answered by the
+    re-Get + retry of `retry.RetryOnConflict`, the lists and the Delete of the slice GC failing) ↦ `reconcileF`
+
+Not modelled: API errors other than AlreadyExists on slice creation / NotFound on slice load, more than one
+update conflict on the ObjectDeployment per call (the retry budget is property C16's), owner references other
+than "is the ObjectDeployment the controller" and "does the loading ObjectSet own the slice".
 -/
 namespace Pko.Model.Chunk
 
@@ -249,6 +253,59 @@ def reconcile (limit : Nat) (strat : Strategy) (hash : List Obj → Nat → Name
     -- Update Deployment, then GC against the updated template
     let del := gcDeletes st1 tmpl w.objectSets
     some ({ w with deploy := some tmpl, slices := erase st1 del }, true, del)
+
+/-- One API fault hitting a `DeploymentReconciler.Reconcile` call (consumed by the first call it applies to;
+a fault whose call is never made has no effect). -/
+inductive DFault where
+  | get            -- the first Get of the ObjectDeployment fails (not NotFound): "getting ObjectDeployment: %w"
+  | create         -- the pre-create of an absent ObjectDeployment fails
+  | update         -- the Update is REJECTED with a non-conflict error (5xx, webhook, forbidden, …): nothing stored
+  | updateLost     -- the Update takes effect but an error (timeout) comes back
+  | conflict       -- a third party writes the ObjectDeployment before the Update: 409 → re-Get → retry succeeds
+  | conflictUpdate -- … and the retried Update is rejected with a non-conflict error
+  | osList         -- slice GC: listing the ObjectSets fails
+  | sliceList      -- slice GC: listing the controlled slices fails
+  | gcDelete       -- slice GC: the first Delete of an unreferenced slice fails
+  deriving DecidableEq, Repr, Inhabited
+
+/-- The Update request of the call is refused by the API with a non-conflict error. -/
+def DFault.rejectsUpdate : DFault → Bool
+  | .update | .conflictUpdate => true
+  | _ => false
+
+/-- Faults that strike after the Update was stored: `Reconcile` fails although the API holds the new template. -/
+def DFault.afterUpdate : DFault → Bool
+  | .updateLost | .osList | .sliceList | .gcDelete => true
+  | _ => false
+
+/-- `DeploymentReconciler.Reconcile` hit by the API fault `f`.
+
+    err := Get(actualDeploy)                       -- `get`: return "getting ObjectDeployment"
+    NotFound → Create(desired, empty template)     -- `create`: return err
+    for phases: chunkPhase                         -- (as `reconcile`)
+    err = RetryOnConflict(Update(actualDeploy))    -- `conflict`: re-Get, closure again, stored;
+    if err != nil { return err }                   -- `update` / `conflictUpdate`: return, GC does NOT run;
+                                                   -- `updateLost`: stored, but return err, GC does not run
+    sliceGarbageCollection(actualDeploy)           -- `osList` / `sliceList`: return err before any Delete;
+                                                   -- `gcDelete`: the first Delete fails: nothing deleted
+
+The slices created by the phase loop stay whatever happens afterwards (the next successful call collects those
+that ended up unreferenced). -/
+def reconcileF (limit : Nat) (strat : Strategy) (hash : List Obj → Nat → Name) (f : DFault)
+    (w : World Name) (desired : List (List Obj)) : Option (World Name × Bool × List Name) :=
+  if f = .get then some (w, false, [])
+  else if f = .create ∧ w.deploy.isNone then some (w, false, [])
+  else
+    let tmpl0 := w.deploy.getD []
+    match chunkPhases limit strat hash w.slices desired with
+    | none => none
+    | some (st1, none) => some ({ w with deploy := some tmpl0, slices := st1 }, false, [])
+    | some (st1, some tmpl) =>
+      if f.rejectsUpdate then some ({ w with deploy := some tmpl0, slices := st1 }, false, [])
+      else
+        let del := gcDeletes st1 tmpl w.objectSets
+        if f.afterUpdate ∧ (f = .gcDelete → del ≠ []) then some ({ w with deploy := some tmpl, slices := st1 }, false, [])
+        else some ({ w with deploy := some tmpl, slices := erase st1 del }, true, del)
 
 /-- Environment: the ObjectDeployment controller creates a new ObjectSet revision from the current template
 (active, not being deleted). -/
